@@ -11,6 +11,45 @@ use vh_engine::refimpl::{lookup3, md5::md5};
 
 const FIX: &str = "/repo/crates/cascette-formats/test_fixtures";
 
+/// Why an artifact is unusable.
+#[derive(Debug, Clone)]
+pub enum ArtErr {
+    /// the repo's own producer wrote a stored hash that the *reference* computation of the
+    /// documented hash does not confirm, and the repo's loader accepts the file all the same:
+    /// producer and checker agree on something weaker than documented (a finding, not trouble)
+    WeakerThanDocumented(String),
+    /// anything else (infrastructure trouble)
+    Other(String),
+}
+
+impl std::fmt::Display for ArtErr {
+    fn fmt(&self, f: &mut std::fmt::Formatter<'_>) -> std::fmt::Result {
+        match self {
+            ArtErr::WeakerThanDocumented(s) | ArtErr::Other(s) => f.write_str(s),
+        }
+    }
+}
+
+impl From<String> for ArtErr {
+    fn from(s: String) -> Self {
+        ArtErr::Other(s)
+    }
+}
+impl From<&str> for ArtErr {
+    fn from(s: &str) -> Self {
+        ArtErr::Other(s.to_string())
+    }
+}
+
+fn judge(consistent: bool, accepted: Result<(), String>, what: &str) -> Result<(), ArtErr> {
+    match (consistent, accepted) {
+        (true, Ok(())) => Ok(()),
+        (true, Err(e)) => Err(ArtErr::Other(format!("unmutated artifact rejected: {e}"))),
+        (false, Ok(())) => Err(ArtErr::WeakerThanDocumented(format!("{what}, yet the loader accepts the file"))),
+        (false, Err(e)) => Err(ArtErr::Other(format!("{what}; loader: {e}"))),
+    }
+}
+
 pub fn k16(i: u32) -> [u8; 16] {
     md5(&i.to_le_bytes())
 }
@@ -39,7 +78,7 @@ fn be32(b: &[u8]) -> usize {
 impl EncArt {
     /// Layout from the 22-byte header (documented in encoding/header.rs), checked
     /// against the reference MD5: every page must hash to its stored checksum.
-    pub fn from_bytes(bytes: Vec<u8>) -> Result<Self, String> {
+    pub fn from_bytes(bytes: Vec<u8>) -> Result<Self, ArtErr> {
         if bytes.len() < 22 || &bytes[0..2] != b"EN" {
             return Err("not an encoding file".into());
         }
@@ -61,17 +100,14 @@ impl EncArt {
             off = data + n * sz;
         }
         if off > bytes.len() {
-            return Err(format!("layout ends at {off}, file has {}", bytes.len()));
-        }
-        for (p, s) in pages.iter().zip(&sums) {
-            if md5(&bytes[p.clone()]) != bytes[s.clone()] {
-                return Err(format!("page {p:?} does not hash to its stored checksum"));
-            }
+            return Err(format!("layout ends at {off}, file has {}", bytes.len()).into());
         }
         if pages.is_empty() {
             return Err("no pages".into());
         }
-        cascette_formats::encoding::EncodingFile::parse(&bytes).map_err(|e| format!("unmutated artifact rejected: {e}"))?;
+        let consistent = pages.iter().zip(&sums).all(|(p, s)| md5(&bytes[p.clone()]) == bytes[s.clone()]);
+        let accepted = cascette_formats::encoding::EncodingFile::parse(&bytes).map(|_| ()).map_err(|e| e.to_string());
+        judge(consistent, accepted, "a page does not hash (reference MD5) to the checksum stored in the page index")?;
         Ok(EncArt { bytes, pages, sums })
     }
     pub fn page_regions(&self) -> Regions {
@@ -100,18 +136,16 @@ pub struct AidxArt {
 }
 
 impl AidxArt {
-    pub fn from_bytes(bytes: Vec<u8>) -> Result<Self, String> {
+    pub fn from_bytes(bytes: Vec<u8>) -> Result<Self, ArtErr> {
         if bytes.len() < 28 {
             return Err("too short".into());
         }
         let f = &bytes[bytes.len() - 28..];
         if f[15] != 8 {
-            return Err(format!("footer hash size {} (expected 8)", f[15]));
+            return Err(format!("footer hash size {} (expected 8)", f[15]).into());
         }
-        if !footer_consistent(f) {
-            return Err("footer does not hash to its stored hash (reference MD5)".into());
-        }
-        cascette_formats::archive::ArchiveIndex::parse(std::io::Cursor::new(&bytes)).map_err(|e| format!("unmutated artifact rejected: {e}"))?;
+        let accepted = cascette_formats::archive::ArchiveIndex::parse(std::io::Cursor::new(&bytes)).map(|_| ()).map_err(|e| e.to_string());
+        judge(footer_consistent(f), accepted, "the stored footer hash is not MD5(version .. element_count, zero-padded to 20)[..8] (reference MD5)")?;
         Ok(AidxArt { bytes })
     }
     /// footer bytes [8..28): version … element_count, stored hash
@@ -157,7 +191,7 @@ pub fn lru_consistent(b: &[u8]) -> bool {
     md5(&z) == b[4..20]
 }
 
-fn lru_built(cap: u32, n: u32) -> Result<LruArt, String> {
+fn lru_built(cap: u32, n: u32) -> Result<LruArt, ArtErr> {
     use cascette_client_storage::lru::LruManager;
     let dir = tempfile::tempdir().map_err(|e| e.to_string())?;
     let mut m = LruManager::new(cap, dir.path().to_path_buf());
@@ -174,14 +208,10 @@ fn lru_built(cap: u32, n: u32) -> Result<LruArt, String> {
     }
     m.bump_generation();
     rt().block_on(m.checkpoint_to_disk()).map_err(|e| e.to_string())?;
-    let (generation, p) = LruManager::find_latest_lru_file(dir.path()).ok_or("no .lru file written")?;
+    let (generation, p) = LruManager::find_latest_lru_file(dir.path()).ok_or(ArtErr::from("no .lru file written"))?;
     let bytes = std::fs::read(p).map_err(|e| e.to_string())?;
-    if !lru_consistent(&bytes) {
-        return Err("checkpoint does not satisfy the documented MD5 (reference)".into());
-    }
-    if cascette_client_storage::lru::lru_file::deserialize(&bytes).is_none() {
-        return Err("unmutated .lru rejected by deserialize".into());
-    }
+    let accepted = cascette_client_storage::lru::lru_file::deserialize(&bytes).map(|_| ()).ok_or_else(|| "deserialize returned None".to_string());
+    judge(lru_consistent(&bytes), accepted, "the stored MD5 is not the MD5 of the file with bytes [4..20) zeroed (reference MD5)")?;
     Ok(LruArt { bytes, cap, generation })
 }
 
@@ -432,7 +462,7 @@ fn read_fixture(rel: &str) -> Result<Vec<u8>, String> {
     std::fs::read(format!("{FIX}/{rel}")).map_err(|e| format!("{FIX}/{rel}: {e}"))
 }
 
-fn build(name: &str) -> Result<Art, String> {
+fn build(name: &str) -> Result<Art, ArtErr> {
     let parts: Vec<&str> = name.split(':').collect();
     match parts.as_slice() {
         ["enc", "built", n] => Ok(Art::Enc(EncArt::from_bytes(encoding_built(n.parse().map_err(|_| "bad n")?)?)?)),
@@ -446,15 +476,15 @@ fn build(name: &str) -> Result<Art, String> {
         ["lru", cap, n] => Ok(Art::Lru(lru_built(cap.parse().map_err(|_| "bad cap")?, n.parse().map_err(|_| "bad n")?)?)),
         ["upd", n] => Ok(Art::Upd(update_section_built(n.parse().map_err(|_| "bad n")?)?)),
         ["idx", a, b] => Ok(Art::Idx(idx_built(a.parse().map_err(|_| "bad n")?, b.parse().map_err(|_| "bad n")?)?)),
-        _ => Err(format!("unknown artifact {name}")),
+        _ => Err(format!("unknown artifact {name}").into()),
     }
 }
 
-type Reg = Mutex<HashMap<String, Result<Arc<Art>, String>>>;
+type Reg = Mutex<HashMap<String, Result<Arc<Art>, ArtErr>>>;
 static REG: OnceLock<Reg> = OnceLock::new();
 
 /// Build (once per process) or fetch the named artifact.
-pub fn get(name: &str) -> Result<Arc<Art>, String> {
+pub fn get(name: &str) -> Result<Arc<Art>, ArtErr> {
     let reg = REG.get_or_init(|| Mutex::new(HashMap::new()));
     if let Some(r) = reg.lock().unwrap().get(name) {
         return r.clone();
